@@ -147,7 +147,12 @@ std::string run_alm(const KV &kv, S &&inner, Trace &tr) {
     std::ostream nullos(nullptr);
     alm.os                  = &nullos;
     alm.inner_solver.solver.os = &nullos;
-    tr.do_stop              = [&] { alm.stop(); };
+    // via=inner: the request is made on the wrapped inner solver (`alm.inner_solver.stop()`, public API) instead of
+    // on ALM: only the inner solver's flag is set, ALM learns of it through the inner status Interrupted
+    if (kv.nat("viainner", 0))
+        tr.do_stop = [&] { alm.inner_solver.stop(); };
+    else
+        tr.do_stop = [&] { alm.stop(); };
     vec x = kv.vecv("x0"), y = kv.vecv("y0");
     vec Σv = kv.vecv("Sig");
     typename al::ALMSolver<W>::Stats s;
